@@ -69,9 +69,12 @@ def _inv_terms(fsm, read, fired, conf):
     if P is None:
         out.append(('I1-session-has-connection', z3.Not(in_session)))
     else:
-        tr = rd(P, 'transport')
-        live = z3.And(T(rd(tr, 'connected')) != 0, z3.Not(Bt(rd(tr, 'disconnecting'))),
-                      z3.Not(Bt(rd(P, 'disconnected'))))
+        tr = rd(P, 'transport') if (not isinstance(P, Obj) or 'transport' in P.f) else None
+        if tr is None:       # a protocol instance Twisted has not given a transport yet
+            live = z3.BoolVal(False)
+        else:
+            live = z3.And(T(rd(tr, 'connected')) != 0, z3.Not(Bt(rd(tr, 'disconnecting'))),
+                          z3.Not(Bt(rd(P, 'disconnected'))))
         out.append(('I1-session-has-connection', z3.Implies(in_session, live)))
     out.append(('I2-no-connect-retry-in-session', z3.Implies(in_session, z3.Not(act['cr']))))
     out.append(('I2b-no-idle-hold-in-session', z3.Implies(in_session, z3.Not(act['ihold']))))
@@ -84,6 +87,31 @@ def _inv_terms(fsm, read, fired, conf):
                 z3.Implies(z3.And(oc_est, H == 0), z3.And(z3.Not(act['hold']), z3.Not(act['ka'])))))
     out.append(('hold-time-range', z3.And(H >= 0, H <= 65535)))
     out.append(('I4d-negotiated-hold-time-legal', z3.Implies(oc_est, z3.Or(H == 0, H >= 3))))
+    # ---- ghost-state clauses (C12 / C13 / C02 safety halves)
+    peering = rd(fsm, 'bgp_peering')
+    g = rd(peering, '_ghost') if (isinstance(peering, Obj) and '_ghost' in peering.f) else None
+    if g is not None:
+        npend = T(rd(g, 'n_pending'))
+        allow = Bt(rd(fsm, 'allow_automatic_start'))
+        if P is None or (isinstance(P, Obj) and 'transport' not in P.f):
+            live_t = z3.BoolVal(False)
+            closing = z3.BoolVal(False)
+        else:
+            trr = rd(P, 'transport')
+            live_t = z3.And(T(rd(trr, 'connected')) != 0, z3.Not(Bt(rd(trr, 'disconnecting'))), z3.Not(Bt(rd(P, 'disconnected'))))
+            closing = z3.And(T(rd(trr, 'connected')) != 0, Bt(rd(trr, 'disconnecting')))
+        out.append(('ghost-range', npend >= 0))
+        out.append(('C12-One-connection-or-attempt', npend + z3.If(live_t, 1, 0) <= 1))
+        out.append(('C13-Stopped-no-attempt', z3.Implies(z3.Not(allow), npend == 0)))
+        out.append(('C13-Stopped-no-timers', z3.Implies(z3.Not(allow), z3.Not(z3.Or([act[x] for x in tm])))))
+        out.append(('C13-Stopped-no-connection', z3.Implies(z3.Not(allow), z3.Not(live_t))))
+        out.append(('C02-Recover-idle', z3.Implies(z3.And(allow, st == ST_IDLE),
+                                                   z3.Or(act['ihold'], closing, npend >= 1) if fired != 'ihold' else z3.BoolVal(True))))
+        fresh = z3.BoolVal(isinstance(P, Obj) and 'transport' not in P.f)     # connectionMade follows at once (T1)
+        out.append(('C02-Recover-connect', z3.Implies(st == ST_CONNECT, z3.Or(npend >= 1, act['cr'], live_t, fresh))))
+        out.append(('I5-idle-no-live-connection', z3.Implies(st == ST_IDLE, z3.Not(live_t))))
+        out.append(('C12-idle-no-attempt', z3.Implies(st == ST_IDLE, npend == 0)))
+        out.append(('C02-Recover-session', z3.Implies(in_session, z3.And(live_t, z3.Or(act['hold'], z3.And(oc_est, H == 0))))))
     if conf is not None:
         out.append(('NoPoison-offered-hold-time-is-configured',
                     z3.Implies(st == ST_OPENSENT, H == T(conf.f['time'].f['hold_time']))))
@@ -95,8 +123,17 @@ TIMING_CLAUSES = ('I3-opensent-hold', 'I4a-timers-running', 'I4c-keepalive-inter
                   'NoPoison-offered-hold-time-is-configured')
 
 
-def Inv(fsm, read=None, fired=None, structural_only=False):
-    return z3.And([t for n, t in inv_terms(fsm, read, fired) if not (structural_only and n in TIMING_CLAUSES)])
+def Inv(fsm, read=None, fired=None, structural_only=False, skip=()):
+    return z3.And([t for n, t in inv_terms(fsm, read, fired)
+                   if not (structural_only and n in TIMING_CLAUSES) and n not in skip])
+
+
+def require_inv(s, fsm, fired=None, structural_only=False, skip=()):
+    """Inv as a precondition, clause by clause (so that a failing call-site obligation names the clause)"""
+    for n, t in inv_terms(fsm, None, fired):
+        if (structural_only and n in TIMING_CLAUSES) or n in skip:
+            continue
+        s.c.requires(t, 'Inv/' + n)
 
 
 def ensure_inv(s, fsm):
@@ -169,6 +206,9 @@ def set_state(s, fsm, new):
 def profile_dont_cares(s, fsm):
     """fields the profile does not constrain"""
     s.dont_care(fsm, 'connect_retry_counter')
+    peering = s.get(fsm, 'bgp_peering')
+    if isinstance(peering, Obj):
+        s.dont_care(peering, 'status')
     for sh in NAME:
         s.dont_care(timer(s, fsm, sh), 'status')
 
@@ -209,6 +249,13 @@ def state_in(s, fsm, states):
     return s.in_(s.get(fsm, 'state'), states)
 
 
+def msg_event_requires(s, fsm):
+    """T1: a message is delivered only on the live tracked connection, i.e. in OpenSent/OpenConfirm/Established
+    (the RFC's rows for messages in Connect are dead in this profile: nothing is connected in Connect, and
+    nothing buffered is processed after a close)"""
+    s.c.requires(z3.Or([T(s.get(fsm, 'state')) == k for k in SESSION_STATES]), 'T1: message events occur in a session state')
+
+
 def prof(fn, fired=None, structural_only=False):
     """FSM event spec = requires Inv; profile row; ensures Inv; only visible effects are compared"""
     if isinstance(fn, str):
@@ -217,7 +264,7 @@ def prof(fn, fired=None, structural_only=False):
         return lambda f: prof(f, fired=fn)
 
     def prog(s, fsm, *args):
-        s.c.requires(Inv(fsm, fired=fired, structural_only=structural_only), 'Inv')
+        require_inv(s, fsm, fired=fired, structural_only=structural_only)
         profile_dont_cares(s, fsm)
         r = fn(s, fsm, *args)
         ensure_inv(s, fsm)
@@ -243,7 +290,8 @@ def ev_connect_retry(s, fsm):
             p_closeConnection(s, P)
         t_reset(s, timer(s, fsm, 'cr'), s.get(fsm, 'connect_retry_time'))
         peering = s.get(fsm, 'bgp_peering')
-        s.eff('ConnectTCP', connect_args(s, peering))
+        from . import peering as PE
+        PE.p_connect(s, peering)
     elif state_in(s, fsm, SESSION_STATES):
         err_close(s, fsm, wire.E_FSM, ANY_SUB)
     # Idle: ignored
@@ -306,7 +354,7 @@ def ev_connection_made(s, fsm):
 
 def live_protocol(s, fsm):
     P = s.get(fsm, 'protocol')
-    if P is None:
+    if P is None or not isinstance(P, Obj) or 'transport' not in P.f:
         return z3.BoolVal(False)
     tr = s.get(P, 'transport')
     return z3.And(T(s.get(tr, 'connected')) != 0, z3.Not(Bt(s.get(tr, 'disconnecting'))),
@@ -322,6 +370,10 @@ def send_open_abstract(s, P):
 @prof
 def ev_connection_failed(s, fsm):
     """Event 18 (TCP connection fails / is lost)"""
+    peering_ = s.get(fsm, 'bgp_peering')
+    if isinstance(peering_, Obj) and '_ghost' in peering_.f:
+        s.c.requires(z3.Implies(T(s.get(fsm, 'state')) == ST_CONNECT, T(s.get(s.get(peering_, '_ghost'), 'n_pending')) == 0),
+                     'T1: in Connect the event is delivered for THE outstanding attempt (none remains)')
     if state_in(s, fsm, (ST_CONNECT,)):
         t_cancel(s, timer(s, fsm, 'cr'))
         P = s.get(fsm, 'protocol')
@@ -359,6 +411,7 @@ def ev_open_received(s, fsm):
                                    z3.Or(Hn == 0, Hn >= 3), Bt(s.get(timer(s, fsm, 'hold'), '_active')))),
                  'hold time / keepalive time negotiated and legal')
     s.c.requires(z3.Implies(T(s.get(fsm, 'state')) == ST_OPENCONFIRM, Inv(fsm)), 'Inv (OpenConfirm: nothing may have changed)')
+    msg_event_requires(s, fsm)
     if state_in(s, fsm, (ST_OPENSENT,)):
         t_cancel(s, timer(s, fsm, 'cr'))
         p_send_keepalive(s, s.get(fsm, 'protocol'))
@@ -392,6 +445,7 @@ def ev_open_message_error(s, fsm, suberror, data=b''):
 @prof
 def ev_notification_received(s, fsm, error, suberror):
     """Events 24 / 25"""
+    msg_event_requires(s, fsm)
     version_err = s.branch(z3.And(T(error) == wire.E_OPEN, T(suberror) == wire.OPEN_BAD_VERSION))
     if state_in(s, fsm, (ST_OPENSENT,)):
         if version_err:
@@ -409,6 +463,7 @@ def ev_notification_received(s, fsm, error, suberror):
 @prof
 def ev_keep_alive_received(s, fsm):
     """Event 26"""
+    msg_event_requires(s, fsm)
     if state_in(s, fsm, (ST_OPENCONFIRM,)):
         if s.branch(T(s.get(fsm, 'hold_time')) > 0):
             t_reset(s, timer(s, fsm, 'hold'), s.get(fsm, 'hold_time'))
@@ -425,6 +480,7 @@ def ev_keep_alive_received(s, fsm):
 @prof
 def ev_update_received(s, fsm):
     """Event 27"""
+    msg_event_requires(s, fsm)
     if state_in(s, fsm, (ST_ESTABLISHED,)):
         if s.branch(T(s.get(fsm, 'hold_time')) > 0):
             t_reset(s, timer(s, fsm, 'hold'), s.get(fsm, 'hold_time'))
@@ -434,21 +490,27 @@ def ev_update_received(s, fsm):
         drop(s, fsm)
 
 
-@prof
-def ev_manual_stop(s, fsm):
-    """Event 2"""
-    if state_in(s, fsm, SESSION_STATES):
+def manual_stop_row(cease_states):
+    def row(s, fsm):
+        if state_in(s, fsm, cease_states):
+            P = s.get(fsm, 'protocol')
+            p_send_notification(s, P, wire.E_CEASE, ANY_SUB)
+        for sh in NAME:
+            t_cancel(s, timer(s, fsm, sh))
         P = s.get(fsm, 'protocol')
-        p_send_notification(s, P, wire.E_CEASE, ANY_SUB)
-    for sh in NAME:
-        t_cancel(s, timer(s, fsm, sh))
-    P = s.get(fsm, 'protocol')
-    if P is not None:
-        p_closeConnection(s, P)
-    s.set(fsm, 'allow_automatic_start', False)
-    set_state(s, fsm, ST_IDLE)
-    s.ret = True
-    return True
+        if P is not None:
+            p_closeConnection(s, P)
+        s.set(fsm, 'allow_automatic_start', False)
+        set_state(s, fsm, ST_IDLE)
+        s.ret = True
+        return True
+    return row
+
+
+# Event 2 per RFC 4271 8.2.2: Cease from OpenSent, OpenConfirm and Established (C01)
+ev_manual_stop = prof(manual_stop_row(SESSION_STATES))
+# C13's own statement: "sends Cease if the session was Established"
+ev_manual_stop_c13 = prof(manual_stop_row((ST_ESTABLISHED,)))
 
 
 @prof('ihold')
@@ -465,7 +527,8 @@ def automatic_start_row(s, fsm):
         set_state(s, fsm, ST_CONNECT)
         peering = s.get(fsm, 'bgp_peering')
         s.dont_care(peering, 'status')
-        s.eff('ConnectTCP', connect_args(s, peering))
+        from . import peering as PE
+        PE.p_connect(s, peering)
 
 
 FSM_EVENT_SPECS = {
